@@ -107,7 +107,7 @@ def tb_fen(piece, idx, mirror=False):
     board = ["."] * 64
     board[wk], board[bk], board[x] = "K", "k", piece
     # the counters are part of the position but of no rule the search may use: vary them with the slot
-    half = (0, 0, 1, 3, 12, 57)[idx % 6]
+    half = (0, 0, 1, 3, 12, 57, 97, 98, 99)[idx % 9]      # (a quiet mate from clock 99 is still a mate: the claim of a draw is not automatic)
     p = {"board": board, "stm": "wb"[stm], "castle": [], "ep": 0, "half": half, "full": half // 2 + 1 + idx % 3}
     if mirror:
         nb = ["."] * 64
@@ -486,6 +486,14 @@ def check_c03(pid, tier, seed):
                 steps.append({"fen": rnd.choice(fens), "depth": 2, "seed": rnd.randrange(1 << 30), "workers": 1, "reuse": True, "tag": "hist:unrelated"})
             steps.append({"fen": second, "depth": rnd.choice([1, 2, 2, 3]), "seed": rnd.randrange(1 << 30), "workers": w, "reuse": True, "tag": "hist:" + why})
             sessions.append({"id": sid, "steps": steps})
+    # the same position searched again on the kept memory (analysis mode: go, stop, go), with equal, smaller and larger depth limits
+    for i in range(24 if quick else 300):
+        f = fens[(i * 19 + 5) % len(fens)]
+        d = rnd.choice([2, 3, 3, 4])
+        sid += 1
+        sessions.append({"id": sid, "steps": [{"fen": f, "depth": d, "seed": rnd.randrange(1 << 30), "workers": 1, "tables": 8, "buckets": 1024, "tag": "same-root-again"}] +
+                                             [{"fen": f, "depth": d2, "seed": rnd.randrange(1 << 30), "workers": 1 + (k % 2), "reuse": True, "tables": 8, "buckets": 1024, "tag": "same-root-again"}
+                                              for k, d2 in enumerate([d, max(1, d - 1), 1, d + 1])]})
     # as in a real game: the memory is kept while the game moves on two plies at a time (the new root was an inner node of the
     # previous search), a few games of six searches each
     wv(wvbin, ["play", "--seed", seed + 23, "--games", 100 if quick else 1200, "--plies", 14, "--emit", "move", "--corpus", os.path.join(CORPUS, "positions.fen"), "--out-prefix", os.path.join(wd, "gl")])
@@ -955,7 +963,8 @@ def check_c19(pid, tier, seed):
                 for tg in tagset:
                     # every second case: run A has an unrelated unbounded analysis running beside it in the same process
                     extra = {"background": "r3k2r/p1ppqpb1/bn2pnp1/3PN3/1p2P3/2N2Q1p/PPPBBPPP/R3K2R w KQkq - 0 1"} if tg == "A" and pcase["id"] >= 520000 else {}
-                    f.write(json.dumps(dict(pcase, tag=tg, **extra)) + "\n")
+                    # run A reads the events while the search runs, B and C after it has ended
+                    f.write(json.dumps(dict(pcase, tag=tg, reader="live" if tg == "A" else "after", **extra)) + "\n")
             ptr.append((script, os.path.join(wd, "c19pub_%d_%d.ndjson" % (j, k)), k))
     with ThreadPoolExecutor(max_workers=6) as ex:
         list(ex.map(lambda sp: subprocess.run([wvbin, "search-public", "--script", sp[0], "--out", sp[1]], capture_output=True, timeout=3000), ptr))
